@@ -394,6 +394,32 @@ class Resolver:
             return []
         return []
 
+    def _func_value(self, f: FuncInfo, a: ast.expr, env) -> Optional[FuncInfo]:
+        """If expression ``a`` (not being called) denotes a repo function, return it."""
+        par = getattr(a, "_parent", None)
+        if isinstance(par, ast.Call) and par.func is a:
+            return None
+        if isinstance(a, ast.Name):
+            g: Optional[FuncInfo] = f
+            while g is not None:
+                if a.id in g.nested:
+                    return g.nested[a.id]
+                g = g.outer
+            if a.id in env:
+                return None
+            r = self.repo.resolve_name(f.module, a.id)
+            return r if isinstance(r, FuncInfo) else None
+        if isinstance(a, ast.Attribute):
+            base = self.expr_type(f, a.value, env)
+            for c in sorted(base.classes | base.meta):
+                m = self.repo.find_member(self.repo.classes[c], a.attr)
+                if m is not None and m.kind not in ("getter", "setter"):
+                    return m
+            ext = self.repo.external_name(f.module, a)
+            if ext in self.repo.funcs:
+                return self.repo.funcs[ext]
+        return None
+
     def call_sites(self, f: FuncInfo) -> list["CallSite"]:
         if f.qual in self._calls_cache:
             return self._calls_cache[f.qual]
@@ -403,6 +429,36 @@ class Resolver:
             if isinstance(n, ast.Call):
                 callees = self.resolve_call(f, n, env)
                 sites.append(CallSite(f, n, callees))
+        # functions handed to higher-order callables (apply_ufunc, delayed, map, partial, ...)
+        for n in walk_local(f.node):
+            if not isinstance(n, ast.Call):
+                continue
+            cands = list(n.args) + [k.value for k in n.keywords]
+            for a in cands:
+                if isinstance(a, (ast.Name, ast.Attribute)):
+                    tgt = self._func_value(f, a, env)
+                    if tgt is not None:
+                        hk: dict[str, ast.expr] = {}
+                        kwv = next((k.value for k in n.keywords if k.arg == "kwargs"), None)
+                        if isinstance(kwv, ast.Dict):
+                            for k_, v_ in zip(kwv.keys, kwv.values):
+                                if isinstance(k_, ast.Constant) and isinstance(k_.value, str):
+                                    hk[k_.value] = v_
+                        if dotted(n.func) in ("partial", "functools.partial"):
+                            for k in n.keywords:
+                                if k.arg:
+                                    hk[k.arg] = k.value
+                        sites.append(CallSite(f, n, [tgt], indirect=True, hof_kwargs=hk))
+        # delayed(F)(args) / partial(F)(args): the outer call invokes F with these args
+        for n in walk_local(f.node):
+            if isinstance(n, ast.Call) and isinstance(n.func, ast.Call) and n.func.args:
+                inner = n.func
+                if dotted(inner.func) in ("delayed", "dask.delayed", "partial", "functools.partial"):
+                    a0 = inner.args[0]
+                    if isinstance(a0, (ast.Name, ast.Attribute)):
+                        tgt = self._func_value(f, a0, env)
+                        if tgt is not None:
+                            sites.append(CallSite(f, n, [tgt]))
         # property reads/writes on typed receivers are calls too
         for n in walk_local(f.node):
             if isinstance(n, ast.Attribute):
@@ -490,6 +546,8 @@ class CallSite:
     node: ast.AST  # ast.Call, or ast.Attribute for implicit property access
     callees: list
     implicit: bool = False
+    indirect: bool = False  # callee passed as a value to a higher-order callable
+    hof_kwargs: dict = field(default_factory=dict)
 
     @property
     def line(self) -> int:
@@ -506,6 +564,8 @@ class CallSite:
         """Expression bound to parameter ``pname`` of callee at this site (or None)."""
         if not isinstance(self.node, ast.Call):
             return None
+        if self.indirect:
+            return self.hof_kwargs.get(pname)
         kw = self.kwarg(pname)
         if kw is not None:
             return kw
